@@ -23,6 +23,28 @@ fn main() {
                 println!("{} {}", d.id, streams.iter().map(|s| s.name).collect::<Vec<_>>().join(","));
             }
         }
+        "selftest" => {
+            // the oracles against a literal mainnet transaction taken from the repository's own tests
+            let hexs = "84a700818258208b9c96823c19f2047f32210a330434b3d163e194ea17b2b702c0667f6fea7a7a000d80018182581d6138fe1dd1d91221a199ff0dacf41fdd5b87506b533d00e70fae8dae8f1abfbac06a021a0002b645031a03962de305a1581de1b3cabd3914ef99169ace1e8b545b635f809caa35f8b6c8bc69ae48061abf4009040e80a100828258207dc05ac55cdfb9cc24571d491d3a3bdbd7d48489a916d27fce3ffe5c9af1b7f55840d7eda8457f1814fe3333b7b1916e3b034e6d480f97f4f286b1443ef72383279718a3a3fddf127dae0505b01a48fd9ffe0f52d9d8c46d02bcb85d1d106c13aa048258201b3d6e1236891a921abf1a3f90a9fb1b2568b1096b6cd6d3eaaeb0ef0ee0802f58401ce4658303c3eb0f2b9705992ccd62de30423ade90219e2c4cfc9eb488c892ea28ba3110f0c062298447f4f6365499d97d31207075f9815c3fe530bd9a927402f5f6";
+            let bytes = vkit::codec::unhex(hexs).unwrap();
+            let lenient = vkit::cddl::Opts { legacy_ok: true, strict_output_assets: false, discipline: false, allow_empty_maps: true };
+            let f = vkit::cddl::validate("transaction", &bytes, lenient).expect("well-formed");
+            assert!(f.is_empty(), "literal transaction must satisfy the CDDL (lenient): {:?}", f);
+            let strict = vkit::cddl::Opts { legacy_ok: false, strict_output_assets: true, discipline: true, allow_empty_maps: false };
+            let f = vkit::cddl::validate("transaction", &bytes, strict).expect("well-formed");
+            let clauses: Vec<&str> = f.iter().map(|x| x.clause).collect();
+            assert!(clauses.contains(&"discipline/set-without-tag-258") && clauses.contains(&"card/nonempty-set-is-empty"), "validator must notice untagged and empty sets: {:?}", clauses);
+            // ledger model: withdrawal 3208642825 + one unknown input; fee and outputs are read correctly
+            let tx = vkit::ledger::Tx::parse(&bytes).unwrap();
+            assert_eq!(tx.fee().unwrap(), 177_733);
+            assert_eq!(tx.withdrawals().len(), 1);
+            assert_eq!(tx.inputs().unwrap().len(), 1);
+            assert_eq!(vkit::codec::hex(&tx.body_hash()).len(), 64);
+            // the library agrees on the body hash (Blake2b-256 of the body span)
+            let ft = cardano_serialization_lib::FixedTransaction::from_bytes(bytes.clone()).unwrap();
+            assert_eq!(ft.transaction_hash().to_bytes(), tx.body_hash());
+            println!("selftest ok");
+        }
         "merge" => {
             println!("{}", merge_hashes(&args[2..].to_vec()));
         }
